@@ -253,9 +253,13 @@ where
     let mut result = operand.checked_add(D::from_num(1)).ok_or(())?;
     let mut term = operand;
 
-    for i in 2..D::frac_nbits() {
+    for i in 2..(2 * (D::int_nbits() + D::frac_nbits())) {
         #[cfg(substrate_fixed_verif)]
         crate::verif_hook::tick();
+        // the remaining terms are zero too
+        if term == D::from_num(0) {
+            break;
+        }
         term = if let Some(r) = term.checked_mul(operand) {
             r
         } else {
